@@ -40,7 +40,7 @@ func c19Run(faults []int, methods []string, attemptsLo, attemptsHi int, callback
 	idem := method == "GET" || method == "HEAD" || method == "PUT"
 	const T = time.Second
 
-	// callbacks: 0 none, 1 RetryIf, 2 RetryIfErr
+	// callbacks: 0 none, 1 RetryIf, 2 RetryIfErr, 3 RetryIfErrUpstream
 	cb := callbacks[vChoose("callbacks", len(callbacks))]
 	cbAllowed := false // some callback said "retry"
 	lastReset := time.Now()
@@ -55,6 +55,17 @@ func c19Run(faults []int, methods []string, attemptsLo, attemptsHi int, callback
 		}
 	case 2:
 		hc.RetryIfErr = func(_ *Request, attempts int, err error) (bool, bool) {
+			reset, retry := vBool("resetTimeout"), vBool("retryIfErr")
+			if retry {
+				cbAllowed = true
+			}
+			if reset && retry {
+				lastReset = time.Now()
+			}
+			return reset, retry
+		}
+	case 3: // the same answers through RetryIfErrUpstream
+		hc.RetryIfErrUpstream = func(_ *Request, attempts int, err error, upstream string) (bool, bool) {
 			reset, retry := vBool("resetTimeout"), vBool("retryIfErr")
 			if retry {
 				cbAllowed = true
@@ -150,14 +161,14 @@ func vhC19Faults() {
 
 // vhC19Callbacks: RetryIf / RetryIfErr with arbitrary answers per call.
 func vhC19Callbacks() {
-	c19Run([]int{vcOK, vcWriteErr, vcEOF, c19Oversized}, []string{"GET", "POST"}, 1, vParam("maxAttempts", 3), []int{1, 2}, false)
+	c19Run([]int{vcOK, vcWriteErr, vcEOF, c19Oversized}, []string{"GET", "POST"}, 1, vParam("maxAttempts", 3), []int{1, 2, 3}, false)
 }
 
 // vhC19Timeout: DoTimeout with attempts that consume 0 / 0.3 / 1.1 timeouts
 // of (virtual) time each; RetryIfErr may reset the timeout.
 func vhC19Timeout() {
 	if vBool("withRetryIfErr") {
-		c19Run([]int{vcOK, vcEOF, vcReadTimeout}, []string{"GET"}, 3, 3, []int{2}, true)
+		c19Run([]int{vcOK, vcEOF, vcReadTimeout}, []string{"GET"}, 3, 3, []int{2, 3}, true)
 	} else {
 		c19Run([]int{vcOK, vcEOF, vcReadTimeout}, []string{"GET"}, -1, -1, []int{0}, true)
 	}
